@@ -224,12 +224,18 @@ func findPresence(c *chk.Ctx, f *ssa.Function, table *types.Var, at ssa.Instruct
 		if !ok {
 			return
 		}
-		w, ok := wrapperCall(c, call, table, "lookup", "lookupok")
+		w, ok := wrapperCall(c, call, table, "lookup", "lookupok", "has")
 		if !ok || w.keyIdx >= len(call.Call.Args) {
 			return
 		}
 		key := ir.NormCell(call.Call.Args[w.keyIdx])
-		for _, cd := range conds {
+		for _, cd := range ir.NormConds(conds) {
+			if w.kind == "has" {
+				if cd.V == ssa.Value(call) && cd.Truth {
+					out = append(out, presence{call, key, nil, false})
+				}
+				continue
+			}
 			if w.kind == "lookupok" {
 				if e, ok := cd.V.(*ssa.Extract); ok && e.Tuple == ssa.Value(call) && e.Index == 1 && cd.Truth {
 					out = append(out, presence{call, key, nil, false})
@@ -479,6 +485,13 @@ func ruleTokenKeyed(c *chk.Ctx, owner string) {
 		}
 		key := pres[0].key
 		inbound := keyMessage(c, key)
+		if inbound == nil {
+			// key and message handed to a private helper together: read both at its call site
+			inbound = keyMessage(c, c.P.Canon(key))
+		}
+		sameMsg := func(a, b ssa.Value) bool {
+			return a != nil && b != nil && (a == b || c.P.Canon(a) == c.P.Canon(b))
+		}
 		// the message sent may be chosen among several (a phi): every candidate is judged
 		var cands []ssa.Value
 		var expandMsg func(v ssa.Value, d int)
@@ -520,7 +533,7 @@ func ruleTokenKeyed(c *chk.Ctx, owner string) {
 				}
 				return v
 			}
-			if inbound != nil && msg == inbound {
+			if inbound != nil && sameMsg(msg, inbound) {
 				ok, why = true, "the message delivered is the inbound message whose id produced the lookup key"
 			} else if al, isAlloc := msg.(*ssa.Alloc); isAlloc {
 				// fresh message: its ID must be the key, or the inbound message's ID
@@ -539,7 +552,7 @@ func ruleTokenKeyed(c *chk.Ctx, owner string) {
 							ok, why = true, "fresh message whose ID is the lookup key"
 						}
 						if u, isU := v.(*ssa.UnOp); isU && inbound != nil {
-							if fa2, isFA2 := u.X.(*ssa.FieldAddr); isFA2 && ir.FieldVar(fa2) == c.M.JID && ir.NormCell(fa2.X) == inbound {
+							if fa2, isFA2 := u.X.(*ssa.FieldAddr); isFA2 && ir.FieldVar(fa2) == c.M.JID && sameMsg(ir.NormCell(fa2.X), inbound) {
 								ok, why = true, "fresh message carrying the inbound message's ID, from which the lookup key was computed"
 							}
 						}
@@ -820,8 +833,28 @@ func ruleHooks(c *chk.Ctx) {
 				return
 			}
 			v := ci.Common().Value
+			// the hook may be called through a local or a parameter it was copied into
+			isHook := func(fv *types.Var) bool {
+				if chk.LoadsField(v, fv) {
+					return true
+				}
+				if _, isFn := v.Type().Underlying().(*types.Signature); !isFn || ci.Common().StaticCallee() != nil {
+					return false
+				}
+				n, all := 0, true
+				for _, src := range c.P.SourcesStop(v, func(x ssa.Value) bool { return chk.LoadsField(x, fv) }) {
+					if ir.IsNilConst(src) {
+						continue
+					}
+					n++
+					if !chk.LoadsField(src, fv) {
+						all = false
+					}
+				}
+				return all && n > 0
+			}
 			switch {
-			case chk.LoadsField(v, c.M.CChook):
+			case isHook(c.M.CChook):
 				okLock := st.Has(facts.NotHeld, lock)
 				c.Check(okLock, "HOOK.cancel", f, "OnCancel outside the lock", ci.Pos(), "the cancel hook runs with "+lock.String()+" definitely released", "the cancel hook may run with the client lock held: a hook that uses the client would deadlock")
 				// after the slot settled: a call of the Response's wait dominates
@@ -877,9 +910,24 @@ func ruleHooks(c *chk.Ctx) {
 						break
 					}
 				}
-				// or the call is governed by a flag that is set only after the slot write
+				// or the call is governed by a flag (a bool, or the hook variable itself being
+				// non-nil) that is set only after the slot write; the test may sit at the call of
+				// the private method that runs the hook
 				if !installed {
-					for _, cd := range ir.CondsAt(ins.Block()) {
+					conds := append([]ir.Cond{}, ir.CondsAt(ins.Block())...)
+					at := f
+					for depth := 0; depth < 3; depth++ {
+						cs, ok := c.P.SoleCaller(at)
+						if !ok {
+							break
+						}
+						conds = append(conds, ir.CondsAt(cs.Instr.Block())...)
+						at = cs.Caller
+					}
+					for _, cd := range conds {
+						if x, eq, isNil := ir.NilCompare(cd.V); isNil && eq != cd.Truth {
+							cd = ir.Cond{V: x, Truth: true}
+						}
 						if !cd.Truth {
 							continue
 						}
@@ -894,6 +942,8 @@ func ruleHooks(c *chk.Ctx) {
 						case *ssa.FreeVar:
 							if b, ok := ir.NormCell(u).(*ssa.Alloc); ok {
 								cell = b
+							} else if b, ok := ir.BindingOf(a).(*ssa.Alloc); ok {
+								cell = b
 							}
 						}
 						if cell == nil {
@@ -901,7 +951,7 @@ func ruleHooks(c *chk.Ctx) {
 						}
 						good, n := true, 0
 						for _, st := range ir.CellStores(cell) {
-							if k, isK := st.Val.(*ssa.Const); isK && k.Value != nil && k.Value.String() == "false" {
+							if k, isK := st.Val.(*ssa.Const); isK && ((k.Value != nil && k.Value.String() == "false") || k.IsNil()) {
 								continue
 							}
 							n++
@@ -921,7 +971,7 @@ func ruleHooks(c *chk.Ctx) {
 					}
 				}
 				c.Check(installed, "HOOK.cancel", f, "OnCancel only for the ender", ci.Pos(), "the hook closure is created only after this goroutine wrote the slot (it ended the request, no reply did)", "the cancel hook can be scheduled on a path that did not end the request: it could run for an answered request, or twice")
-			case chk.LoadsField(v, c.M.CShook):
+			case isHook(c.M.CShook):
 				okLock := st.Has(facts.NotHeld, lock)
 				if _, isDefer := ins.(*ssa.Defer); isDefer {
 					// a deferred hook runs when the function's deferred calls run: the lock must be
@@ -1035,7 +1085,46 @@ func ruleFilterErrorTable(c *chk.Ctx) {
 	}
 	// filterError: returns load of global G on the switch edge Code == K
 	back := map[string]int64{}
+	// the returns that yield a sentinel: filterError's own, and those of a private helper whose
+	// result it hands on (a "which context error does this code stand for?" function)
+	sentinelReturns := append([]*ssa.Return{}, ir.Returns(fe)...)
 	for _, r := range ir.Returns(fe) {
+		if call, ok := ir.NormCell(ir.ReturnResult(r, 0)).(*ssa.Call); ok {
+			if h := call.Call.StaticCallee(); h != nil && c.P.InRepo[h] && !ir.Exported(h) && h.Signature.Results().Len() == 1 {
+				sentinelReturns = append(sentinelReturns, ir.Returns(h)...)
+			}
+		}
+	}
+	isCodeOperand := func(x ssa.Value) bool {
+		if u, isU := x.(*ssa.UnOp); isU {
+			if fa, isFA := u.X.(*ssa.FieldAddr); isFA && ir.FieldOwner(fa) == c.M.ErrorT && ir.FieldVar(fa).Name() == "Code" {
+				return true
+			}
+		}
+		// the helper's parameter, given the error's code at its call
+		if par, isPar := x.(*ssa.Parameter); isPar && par.Parent() != fe {
+			for _, src := range c.P.SourcesStop(par, func(v ssa.Value) bool {
+				u, isU := v.(*ssa.UnOp)
+				if !isU {
+					return false
+				}
+				_, isFA := u.X.(*ssa.FieldAddr)
+				return isFA
+			}) {
+				u, isU := src.(*ssa.UnOp)
+				if !isU {
+					return false
+				}
+				fa, isFA := u.X.(*ssa.FieldAddr)
+				if !isFA || ir.FieldOwner(fa) != c.M.ErrorT || ir.FieldVar(fa).Name() != "Code" {
+					return false
+				}
+			}
+			return true
+		}
+		return false
+	}
+	for _, r := range sentinelReturns {
 		v := ir.ReturnResult(r, 0)
 		g := globalLoad(v)
 		if g == nil {
@@ -1046,6 +1135,24 @@ func ruleFilterErrorTable(c *chk.Ctx) {
 				if k, isC := ir.ConstInt(bo.Y); isC {
 					back[g.Pkg.Pkg.Path()+"."+g.Name()] = k
 				}
+			}
+			// the sentinel is restored on the code alone: any further condition (the message
+			// text, the data) would let a wrapped or annotated context error through as a bare *Error
+			onCode := false
+			if x, y, _, isRel := ir.Rel(cd); isRel {
+				for _, pr := range [][2]ssa.Value{{x, y}, {y, x}} {
+					if _, isC := ir.ConstInt(pr[1]); isC && isCodeOperand(pr[0]) {
+						onCode = true
+					}
+				}
+			}
+			if x, _, isNil := ir.NilCompare(cd.V); isNil {
+				if _, isP := x.(*ssa.Parameter); isP {
+					onCode = true
+				}
+			}
+			if !onCode {
+				c.Fail("TABLE.ctxerr", fe, "sentinel restored on the code alone", r.Pos(), "the context sentinel %s is returned under a condition other than the error's code: a handler's wrapped or annotated context error would reach the caller as a bare *Error", g.Name())
 			}
 		}
 	}
